@@ -297,6 +297,24 @@ func randPerf(rng *rand.Rand, i int) string {
 	return i64s(v)
 }
 
+// sparsePerf: idle events - every counter and timer zero (gauges and time stamp still set), ids mostly left to
+// the collector; mixed with events that change a single field
+func sparsePerf(rng *rand.Rand, i int) string {
+	v := make([]int64, 11)
+	v[0] = 1600000000000 + int64(i)*1000
+	if rng.Intn(5) == 0 {
+		v[1] = int64(1 + rng.Intn(50))
+	}
+	if rng.Intn(2) == 0 {
+		v[2+rng.Intn(6)] = int64(1 + rng.Intn(9))
+	}
+	if rng.Intn(2) == 0 {
+		v[8], v[9] = int64(rng.Intn(3)), int64(rng.Intn(5))
+	}
+	v[10] = int64(rng.Intn(2))
+	return i64s(v)
+}
+
 func streamEvents(o *Out, rng *rand.Rand, thorough bool, _ []string) {
 	n := 400
 	if thorough {
@@ -307,14 +325,18 @@ func streamEvents(o *Out, rng *rand.Rand, thorough bool, _ []string) {
 		rate := 1 + rng.Intn(7)
 		L := 1 + rng.Intn(12)
 		var toks []string
+		gen := randPerf
+		if i%4 == 3 {
+			gen = sparsePerf
+		}
 		for k := 0; k < L; k++ {
 			switch r := rng.Intn(10); {
 			case r == 0:
 				toks = append(toks, "nil")
 			case r <= 2 && k > 0:
-				toks = append(toks, fmt.Sprintf("R%d:%s", rng.Intn(k), randPerf(rng, k)))
+				toks = append(toks, fmt.Sprintf("R%d:%s", rng.Intn(k), gen(rng, k)))
 			default:
-				toks = append(toks, "E:"+randPerf(rng, k))
+				toks = append(toks, "E:"+gen(rng, k))
 			}
 		}
 		run(o, fmt.Sprintf("events %s %d | %s", kind, rate, strings.Join(toks, " ")))
